@@ -410,3 +410,4 @@ def setup_replay():
     from harness.c09 import ConstLearner
 
     gs.DummyClassifier = ConstLearner
+MAX_REPLAYS = 30
